@@ -4,8 +4,8 @@ Specification: spec/Diag.tla (counter protocol of asmerr.c: WrErrorString, WrXEr
 WARNING/ERROR/FATAL) + spec/Driver.tla (run driver of as.c: pass loop, unlink on errors, GlobErrFlag, exit
 status, fatal stop), step machine spec/Driver_MC.tla.
 
-(M) TLC, exhaustively for every sequence of <= 3 (thorough 4) line classes out of 19 (ok, internal/user warning,
-    error, fatal, forward reference (second pass), EXPECT/ENDEXPECT, REPT bursts of 2/255/256/65535/65536/65537
+(M) TLC, exhaustively for every sequence of <= 3 (thorough 4) line classes out of 20 (ok, internal/user warning,
+    error, fatal, forward reference (second pass), undefined symbol (error only in the second pass), EXPECT/ENDEXPECT, REPT bursts of 2/255/256/65535/65536/65537
     faulty lines) x 16 combinations of -Werror / -maxerrors {0..3} / -w, and for two-file runs of <= 2 classes:
     status = 0 <=> nothing of class error/fatal was written; status 0 keeps every code file; a file with written
     errors keeps none; fatal <=> status 3; summary counts = lines written in the last pass; warnings are harmless
@@ -32,10 +32,13 @@ exercised; at most 2 files and 2 passes in the model.  Renderer, tokeniser and c
 Finding on the pinned tree: `Word ErrorCount, WarnCount` wrap at 65536 (REPT 65536 of a faulty line: status 0,
 code file kept, summary "0 errors") -> known_findings/C02.json, proposed_fixes/C02-wide-counters.diff.
 
-Mutations of the real code tried on scratch copies (VERIF_REPO=..., see the final report of the builder):
- asmerr.c `if (Warning) WarnCount++ else ErrorCount++` swapped for user WARNING; `GlobErrFlag ? 2 : 0` -> 0;
- dropping `unlink(OutName)` after errors; -Werror reclassification removed; `exit(3)` -> `exit(2)`;
- MaxErrors test `>=` -> `>`; all reported as VIOLATION (details in the docstring of selftest()).
+Mutations of the real code (selftest/b218_mutants.py, scratch copies, all compile; `./check C02 --selftest`), every one
+reported as VIOLATION by the quick tier: -Werror reclassification disabled; `return GlobErrFlag ? 2 : 0` -> 0;
+`unlink(OutName)` after errors removed; `exit(3)` -> `exit(2)`; -maxerrors test `>=` -> `>`; -w also swallowing
+errors; user WARNING counted as error; summary printing errors+warnings; GlobErrFlag set only for one-pass files
+(needs the `undef` class: error in pass 2); an EXPECTed error still counted.  Trace corruptions (counter, class,
+kept flag, exit status, IfAsm/stale pointers at file_begin, CPU at pass_begin, a removed pass_begin) are rejected
+by Driver_Trace.
 """
 import json
 import os
@@ -47,7 +50,7 @@ from vlib.report import Report
 
 PID = "C02"
 COLLECT = (".p", ".log", ".txt", ".lst")
-QUICK_SMALL = 16000  # quick tier: seeded sample of the cover if it is larger than this
+QUICK_SMALL = 9000   # quick tier: seeded sample of the cover if it is larger than this
 BIG = 255            # a REPT burst of at least this many lines is "big" (sampled in the quick tier)
 
 
@@ -147,8 +150,11 @@ def main(tier):
         raise CheckError("Driver_Gen printed no behaviours")
     small = [t for t in trs if not is_big(t)]
     if tier == "quick" and len(small) > QUICK_SMALL:
-        rng("c02/small").shuffle(small)
-        small = small[:QUICK_SMALL]
+        # every one-file run, a seeded sample of the two-file runs
+        one = [t for t in small if len(t["files"]) == 1]
+        two = [t for t in small if len(t["files"]) != 1]
+        rng("c02/small").shuffle(two)
+        small = one + two[:max(0, QUICK_SMALL - len(one))]
     bigs = [t for t in trs if is_big(t)]
     r = rng("c02")
     nbig = 72 if tier == "quick" else 1500
@@ -252,3 +258,25 @@ def replay(path):
     log("expected by the specification: %s" % json.dumps(tr["exp"])[:1500])
     log("recorded: %s" % v["what"][:1500])
     return 0
+
+
+def selftest(tier):
+    """binding demonstration: (a) corrupted hook traces are rejected by Driver_Trace, (b) stored mutations of the
+    anchored code (selftest/b218_mutants.py, applied to scratch copies of the repository) make this check report
+    VIOLATION.  quick: 3 mutants, thorough: all of this property."""
+    import subprocess
+    import sys
+    bld = build.get("hook")
+    ok = drvtrace.selftest_corruptions(bld, log)
+    sys.path.insert(0, os.path.join(os.path.dirname(os.path.dirname(os.path.abspath(__file__))), "selftest"))
+    import b218_mutants
+    mine = [n for n in b218_mutants.MUTANTS if n.startswith("c02_")]
+    if tier == "quick":
+        mine = mine[:3]
+    for n in mine:
+        name, check, verdict = b218_mutants.run(n)
+        caught = "exit=1" in verdict
+        log("selftest: mutant %-28s %s  %s" % (name, "CAUGHT" if caught else "MISSED", verdict))
+        ok = ok and caught
+    log("selftest %s: %s" % (PID, "passed" if ok else "FAILED"))
+    return 0 if ok else 1
